@@ -9,6 +9,7 @@ model's top_filter; option sequences of length <= 3 over a small pool are
 enumerated exhaustively."""
 import itertools
 import json
+import os
 import random
 import re as pyre
 
@@ -63,6 +64,25 @@ def run(ctx):
                 for tl in tails:
                     r = b"refs/heads/" + tl
                     reqs.append(("regexp %s %s" % (vlib.hx(txt.encode()), vlib.hx(r)), "regexp %s %s" % (RC.re_enc(var), vlib.hx(r)), (txt, r, var)))
+    # the decoder of the regexp model (RefOpts.rune_at) against utf8.DecodeRune, on every sequence of one to four bytes over an
+    # alphabet that holds both ends of every accept range of the first, second and later bytes (25 values; 25 + 25^2 + 25^3 +
+    # a sample of 25^4 in the quick tier, all 25^4 in the thorough one)
+    alpha = [0x00, 0x41, 0x7f, 0x80, 0x8f, 0x90, 0x9f, 0xa0, 0xbf, 0xc0, 0xc1, 0xc2, 0xdf, 0xe0, 0xe1, 0xec, 0xed, 0xee, 0xef, 0xf0, 0xf1, 0xf3, 0xf4, 0xf5, 0xff]
+    import itertools
+    seqs = [bytes(t) for n in (1, 2, 3) for t in itertools.product(alpha, repeat=n)]
+    four = [bytes(t) for t in itertools.product(alpha, repeat=4)]
+    seqs += four if not quick else rng.sample(four, 20000)
+    rreqs = ["rune " + vlib.hx(b_) for b_ in seqs] + ["rune -"]
+    ra, rm = vlib.batch(ctx["bins"]["api"], rreqs), vlib.batch(ctx["modelrun"], rreqs)
+    nr = 0
+    for q, a_, m_ in zip(rreqs, ra, rm):
+        nr += 1
+        if a_ != m_:
+            res.violations.append(vlib.Violation("the model's UTF-8 decoder differs from utf8.DecodeRune", {"request": q}, expected=m_, observed=a_))
+            if len(res.violations) > 10:
+                break
+    res.case(("decode-rune-sweep", len(rreqs)), True)
+    res.coverage_extra["byte_sequences_decoded_by_both"] = nr
     # case-insensitive literals, alone (the whole pattern a literal under (?i)) and combined, against names in every case
     ci_names = [b"refs/heads/main", b"refs/heads/MAIN", b"refs/heads/Main", b"REFS/HEADS/MAIN", b"refs/heads/release", b"refs/heads/Release",
                 b"refs/tags/v1", b"refs/tags/V1", b"refs/tags/v1.0", b"refs/stash", b"refs/heads/mainx", b"refs/heads/mai"]
@@ -134,6 +154,43 @@ def run(ctx):
                 res.violations.append(vlib.Violation("the commits traversed are not those the selected references (and ROOTs) point at", inp,
                                                      expected={"unique_commit_count": len(started)}, observed={"unique_commit_count": got}))
 
+        # how the argument of --include / --exclude is read (interpretFlexibly; model: OptionArg.interpret_flexibly): /R/ is the
+        # regexp R (only the two delimiters go), @G the refgroup G, anything else a prefix.  The option is compared with the
+        # spelling that bypasses the reading: --include-regexp R, --refgroup G; a prefix with the model's prefix rule.
+        XS = [b"//", b"/", b"///", b"/a/", b"//refs/heads/.*//", b"//?refs/heads/.*/", b"/refs/tags/.*/?/", b"/@tags/", b"@/x/", b"@", b"@tags", b"@branches",
+              b"@nope", b"@mine", b"@mine.sub", b"refs/heads/", b"/refs", b"refs/", b"/refs/heads/.*/", b"refs/heads/a/", b"@tags/", b"/(/", b"/refs/heads/(main|a)/",
+              b"//*refs/tags/v1|refs/heads/.*/", b"refs/tags/v1", b"/refs/tags/v1/", b"/\\Qrefs/heads/a$/", b"", b"/refs/he/"]
+        xrefs = [b"refs/heads/main", b"refs/heads/a", b"refs/heads/a$", b"refs/heads/feature/x", b"refs/he", b"refs/tags/v1", b"refs/tags/v1.0", b"refs/remotes/origin/main", b"refs/foo"]
+        xcfg = [("refgroup.mine.include", "refs/heads"), ("refgroup.mine.sub.include", "refs/heads/feature")]
+        readings = vlib.batch(ctx["modelrun"], ["interp " + vlib.hx(x) for x in XS])
+        for x, rd in zip(XS, readings):
+            kind, _, payload = rd.partition(":")
+            val = b"" if payload in ("", "-") else bytes.fromhex(payload)
+            for opt in ("--include", "--exclude"):
+                ra = RC.run_refs_case(eng, xrefs, [], xcfg, [opt, os.fsdecode(x)], [], 0, extra_args=["--json", "--no-progress"])
+                ncli += 1
+                res.case(("interpretation", opt, x), True)
+                inp = {"cli": [opt, x.decode("latin1")], "config": xcfg, "refs": [r_.decode("latin1") for r_ in xrefs], "model_reading": rd}
+                if kind == "G!":
+                    if ra["rc"] == 0:
+                        res.violations.append(vlib.Violation("an argument the model reads as a refgroup without a name is accepted", inp, expected="non-zero exit"))
+                    continue
+                if kind in ("R", "G"):
+                    alt = [opt + "-regexp", os.fsdecode(val)] if kind == "R" else (["--refgroup", os.fsdecode(val)] if opt == "--include" else None)
+                    if alt is None:
+                        continue
+                    rb = RC.run_refs_case(eng, xrefs, [], xcfg, alt, [], 0, extra_args=["--json", "--no-progress"])
+                    if (ra["rc"] == 0) != (rb["rc"] == 0) or (ra["rc"] == 0 and (ra["marks"], ra["out"]) != (rb["marks"], rb["out"])):
+                        res.violations.append(vlib.Violation("the argument is not read as the model reads it (regexp between the two delimiters / refgroup after the @)", dict(inp, equivalent=alt),
+                                                             expected={"rc": rb["rc"], "marks": {k.decode("latin1"): v for k, v in rb["marks"].items()}},
+                                                             observed={"rc": ra["rc"], "marks": {k.decode("latin1"): v for k, v in ra["marks"].items()}, "stderr": ra["err"][-200:].decode("latin1")}))
+                else:
+                    pm = vlib.batch(ctx["modelrun"], ["prefix %s %s" % (vlib.hx(val), vlib.hx(r_)) for r_ in sorted(xrefs)])
+                    want = {r_: ((m_ == "true") == (opt == "--include")) for r_, m_ in zip(sorted(xrefs), pm)}
+                    if ra["rc"] != 0 or ra["marks"] != want:
+                        res.violations.append(vlib.Violation("the argument is not read as the model reads it (a prefix, taken as it is)", inp,
+                                                             expected={k.decode("latin1"): v for k, v in want.items()},
+                                                             observed={"rc": ra["rc"], "marks": {k.decode("latin1"): v for k, v in ra["marks"].items()}}))
         for it in range(150 if quick else 2500):
             refs = RC.gen_refs(rng)
             defs, cfg = RC.gen_groupdefs(rng, deep=(it % 7 == 0))
